@@ -363,8 +363,9 @@ Shifted33 == <<Line(5, 3), Line(2, 3)>>                      \* origin (5, 2)
 Negative33 == <<Line(-1, 3), Line(-2, 3)>>                   \* origin (-1, -2): the lines x = 0, y = 0 are interior
 NonUniform24 == << <<3, 4, 6, 7, 9>>, <<-1, 1, 2>> >>
 TinyGrids == { U(1, 1), U(2, 1), U(1, 3), U(2, 2) }
+Straddle32 == << <<-3, 0, 3, 4>>, <<-3, 0, 3>> >>            \* the origin INSIDE the grid: interior lines x = 0 and y = 0
 QuickMcGrids == TinyGrids \cup { U(3, 2), U(3, 3), NonUniform24 }
-QuickGrids == TinyGrids \cup { U(3, 2), U(3, 3), NonUniform33, Shifted33, Negative33, U(4, 2), NonUniform24 }
+QuickGrids == TinyGrids \cup { Straddle32, U(3, 2), U(3, 3), NonUniform33, Shifted33, Negative33, U(4, 2), NonUniform24 }
 ThoroughGrids == QuickGrids \cup { U(4, 3), U(3, 4), << <<2, 3, 5, 6, 8>>, <<0, 1, 2, 4>> >>, U(5, 2) }
 BigGrids == { U(4, 4) }
 ThoroughAllGrids == ThoroughGrids \cup BigGrids
